@@ -1443,9 +1443,16 @@ def sim_defect(cirq, V, prep, D, ctl, via='cco'):
     b = attempt(lambda: records_of(cirq, unrolled))
     dec = cirq.Circuit(cirq.decompose(wrapped, keep=lambda o: is_flat_leaf(cirq, o)))
     c = attempt(lambda: records_of(cirq, dec))
-    if a[:2] != b[:2]:
+    def cat(x):
+        # an operation that reads a record that does not exist (a key nobody measured, or an index beyond the records of its key) is
+        # refused either way; when a moment holds two such reads, which of the two refusals comes first depends on the order inside the
+        # moment, which wrapping and unrolling are free to change: both are the same answer "the circuit reads a missing record"
+        if x[0] == 'err' and ((x[1] == 'IndexError' and 'index out of range' in x[2]) or (x[1] == 'ValueError' and 'missing when testing classical control' in x[2])):
+            return ('err', 'reads-a-missing-record')
+        return x[:2]
+    if cat(a) != cat(b):
         return 'records-wrapped-vs-unrolled', a, b
-    if a[:2] != c[:2]:
+    if cat(a) != cat(c):
         return 'records-wrapped-vs-decomposed', a, c
     return '', a, b
 
